@@ -138,9 +138,14 @@ def run_fit(ctx, rng, idx):
     try:
         with warnings.catch_warnings():
             warnings.simplefilter('ignore')
-            m = MSM(lag_time=lag, method=method, trim=trim,
+            if idx % 4 == 1:
+                m = MSM.from_assignments(
+                    a, lag_time=lag, method=method, trim=trim,
                     sliding_window=sliding, max_n_states=mns)
-            m.fit(a)
+            else:
+                m = MSM(lag_time=lag, method=method, trim=trim,
+                        sliding_window=sliding, max_n_states=mns)
+                m.fit(a)
     except Exception as e:  # noqa
         ctx.violation('msm.fit.raised[%s]' % bname, '%s: %s' % (
             type(e).__name__, str(e)[:200]))
@@ -301,6 +306,26 @@ def run_spectrum(ctx, rng, idx):
                               'pair %d (lambda %.9g): residual %.3g' % (
                                   j, lam, r))
                 break
+    # right eigenvectors
+    if idx % 3 == 0:
+        try:
+            rv, rvec = tm.eigenspectrum(Tin, n_eigs=n_eigs, left=False)
+            if np.abs(rv - vals).max() > 1e-8:
+                ctx.violation('spectrum.right-values', 'right and left '
+                              'eigenvalues differ')
+            for j in range(k):
+                lam, v = rv[j], rvec[:, j]
+                iso = np.sort(np.abs(true_vals - lam))
+                if np.min(np.abs(real_true - lam)) < 1e-9 and iso[1] > 1e-6:
+                    r = np.abs(T @ v - lam * v).max() / max(
+                        np.abs(v).max(), 1e-300)
+                    if r > 1e-7:
+                        ctx.violation('spectrum.right-eigenpair-residual',
+                                      'pair %d: residual %.3g' % (j, r))
+                        break
+            ctx.count('right_spectra_checked')
+        except Exception as e:  # noqa
+            ctx.crash('spectrum.right.raised', e)
     # eq_probs helper
     try:
         p = tm.eq_probs(Tin)
